@@ -1278,9 +1278,28 @@ func (c Clause) String() string {
 		premises.WriteString(p.String())
 	}
 	if c.Transform == nil {
+		if len(c.Premises) > 0 && endsWithName(c.Premises[len(c.Premises)-1]) {
+			// The lexer would take the final '.' for a part of the name constant.
+			return fmt.Sprintf("%s :- %s .", headStr, premises.String())
+		}
 		return fmt.Sprintf("%s :- %s.", headStr, premises.String())
 	}
 	return fmt.Sprintf("%s :- %s |> %s.", headStr, premises.String(), c.Transform.String())
+}
+
+// endsWithName returns true if the text of a premise ends with a name constant.
+func endsWithName(premise Term) bool {
+	var right BaseTerm
+	switch p := premise.(type) {
+	case Eq:
+		right = p.Right
+	case Ineq:
+		right = p.Right
+	default:
+		return false
+	}
+	c, ok := right.(Constant)
+	return ok && c.Type == NameType
 }
 
 func (t Transform) String() string {
